@@ -595,7 +595,8 @@ def lm_stubs(W):
 
 @unit(
     "lifetime.survival_and_pdf_tables",
-    props=["C08", "C03", "C09", "C16"],
+    props=["C08", "C03", "C09", "C10", "C16"],
+    not_clauses={p: ["sf.equals_declared_distribution"] for p in ("C03", "C09", "C10", "C16")},
     targets=LT_TARGETS,
     skeletons=sk_tables,
     stubs=["scipy.stats.norm.sf", "scipy.stats.foldnorm.sf", "scipy.stats.lognorm.sf", "scipy.stats.weibull_min.sf", "flodym.lifetime_models.UnevenTimeDim.bounds"],
@@ -741,8 +742,68 @@ def u_cast_prms(W, sk):
 
 
 @unit(
+    "lifetime.parameter_of_other_length_refused",
+    props=["C13"],
+    targets=["flodym.lifetime_models.LifetimeModel.cast_any_to_np_array", "flodym.lifetime_models.StandardDeviationLifetimeModel.set_prms"],
+    skeletons=lambda tier: [sk for sk in sk_cast_prms(tier) if sk["x"]],
+    note="a parameter given as a FlodymArray over a dimension that has the letter of one of the model's dimensions but another number of items must be refused (not broadcast, not stored), and the refusal leaves the parameters as they were; same length: matched by letter, not claimed either way",
+)
+def u_prm_other_length(W, sk):
+    import flodym.lifetime_models as lt
+    from .arrays import mk_dims
+    from .dimensions import mk_set
+
+    D = mk_dims(W, sk["T"])
+    dims = [D[l] for l in sk["T"]]
+    x = W.array("x", [D[l] for l in sk["x"]])
+    c = W.number("c")
+    if W.symbolic:
+        lm = lt.NormalLifetime.model_construct(dims=mk_set(W, dims), time_letter=sk["T"][0], inflow_at="middle", n_pts_per_interval=1, mean=None, std=None)
+        lm._sf, lm._pdf, lm._t = None, None, None
+    else:
+        from flodym.dimensions import Dimension, DimensionSet
+
+        tdim = Dimension(name=dims[0].name, letter=dims[0].letter, items=list(range(2000, 2000 + max(3, len(dims[0].items)))))
+        if len(tdim.items) != len(dims[0].items):
+            return
+        D[sk["T"][0]].items[:] = tdim.items
+        lm = lt.NormalLifetime(dims=DimensionSet(dim_list=dims), time_letter=sk["T"][0])
+    own = [W.size_of(d) for d in dims]
+    out = W.call(lambda: lm.set_prms(mean=x, std=c))
+    W.prove("set_prms.returns", out.kind == "return", detail=repr(out))
+    if out.kind != "return":
+        return
+    # a parameter over a dimension with the letter of one of the model's dimensions but another number of items
+    # must be refused (not broadcast, not stored), and the refusal leaves the parameters as they were
+    if True:
+        l = sk["x"][-1]
+        if l == sk["T"][0] and not W.symbolic:
+            return  # (the concrete time dimension needs numeric items; the twin case is run on the other letters)
+        twin = W.dim(l, name=D[l].name, tag="twin_" + l)
+        if W.symbolic:
+            same = bool(W.size_eq(W.size_of(twin), W.size_of(D[l])))
+        else:
+            same = len(twin.items) == len(D[l].items)
+            if same:
+                twin.items.append("one more")
+                same = False
+        if same:
+            return  # same length: matched by letter (by-letter semantics of cast_to, not claimed either way)
+        y = W.array("y", [twin if m == l else D[m] for m in sk["x"]])
+        mean0 = SL.lab_of_values(W, lm.mean.copy(), dims)
+        out = W.call(lambda: lm.cast_any_to_np_array(y))
+        W.prove("cast(FlodymArray over a same-letter dimension of another length).raises", out.kind == "raise" and isinstance(out.exc, Exception), detail=repr(out))
+        out = W.call(lambda: lm.set_prms(mean=y, std=c))
+        W.prove("set_prms(mean over a same-letter dimension of another length).raises", out.kind == "raise" and isinstance(out.exc, Exception), detail=repr(out))
+        ok = W.is_ndarray(lm.mean) and len(lm.mean.shape) == len(own) and all(bool(W.size_eq(a, b)) for a, b in zip(lm.mean.shape, own))
+        W.prove("set_prms(refused).mean_keeps_model_shape", ok, detail=f"shape {getattr(lm.mean, 'shape', None)}")
+        if ok:
+            SL.check_same_values(W, "set_prms(refused).mean_unchanged", lm.mean, mean0)
+
+@unit(
     "lifetime.tables_follow_current_parameters",
-    props=["C17", "C03"],
+    props=["C17", "C03", "C09", "C10", "C16"],
+    not_clauses={p: ["after_set_prms.sf_is_table_of_current_parameters", "set_prms.*"] for p in ("C03", "C09", "C10", "C16")},
     targets=[
         "flodym.lifetime_models.StandardDeviationLifetimeModel.set_prms",
         "flodym.lifetime_models.FixedLifetime.set_prms",
